@@ -208,8 +208,8 @@ func AppendNum(dst []byte, n Num, verb byte, prec int) []byte {
 // Flags of a formatting directive.
 type Flags struct {
 	Plus, Minus, Sharp, Space, Zero bool
-	Wid, Prec                      int
-	WidPresent, PrecPresent        bool
+	Wid, Prec                       int
+	WidPresent, PrecPresent         bool
 }
 
 // Spec renders the directive without the leading '%', e.g. "+08.3f".
